@@ -19,20 +19,33 @@ PROPS = {
         "assumptions": ["float division of a whole number of seconds by a whole unit followed by truncation equals integer division "
                         "(rollingAvgPeriodByte); checked by the exhaustive thorough run"],
     },
-    "C08": {
-        "claim": "Round-trip theorems in Lean over the encode/decode models: IPMI message for every NetFn class and every payload (decode(encode) = value with computed checksums, re-encode = same bytes), AES-128-CBC layer for every lawful block cipher, key, IV and message of every length (CBC inversion by induction on blocks, pad arithmetic for every length), v2.0 wrapper without trailer incl. OEM descriptor; the authenticated trailer of the v2.0 wrapper, the v1.5 wrapper and RAKP 1 are so far covered by the correspondence run only (partial). Models are tied to the code by serialising through gopacket.SerializeLayers for every payload length 0..200 (thorough 0..480), all integrity algorithms, and comparing bytes with the model's; the Go side also checks decode(serialise) = value and re-serialise = same bytes directly.",
-        "note": "trusted: Lean kernel; hand-written encode/decode models tied by byte-exact correspondence; HMAC/AES of Go's crypto library assumed lawful (decBlock inverts encBlock, fixed output lengths); gopacket SerializeBuffer modelled as list concatenation",
-        "technique": "Lean 4 proof (round-trip theorems by simp/omega/induction over abstract lawful crypto) + byte-exact differential correspondence of serialisers",
-        "ref": "§5 C08",
-        "proofs": ["Bmc.Proofs.C08"],
-        "scenarios": ["rt"],
-        "rule": "message: 7 NetFn classes x every payload length 0..200 (thorough 0..480); v2 wrapper: 4 integrity algorithms x authenticated/not x payload "
-                "types incl. OEM x every payload length; AES: every message length; all field values random per op. Non-trivial = every op (each "
-                "serialises, decodes, compares and re-serialises); distinct = distinct op line.",
-        "modelled": ["Message.encode/decode, V2Session.encode/decode, AESLayer.encode/decode are hand models; gopacket's SerializeBuffer and "
-                     "crypto/{hmac,aes,cipher} are modelled/assumed, not verified"],
-        "assumptions": ["crypto/rand replaced by a fixed reader in the harness so that the IV is an input"],
-    },
+    "C08": {'claim': 'Round-trip theorems in Lean over the encode/decode models of all five two-way layers: IPMI message for every NetFn class and every payload '
+          '(decode(encode) = value with computed checksums, re-encode = same bytes); AES-128-CBC layer for every lawful block cipher, key, IV and message of '
+          'every length (CBC inversion by induction on blocks, pad arithmetic for every length); v2.0 session wrapper with and without the OEM payload '
+          'descriptor and with and without the authenticated trailer (0xFF integrity pad scan, pad length, next header, AuthCode) for EVERY integrity function '
+          '(any output, any length) and every payload length < 65536; v1.5 session wrapper in both forms (10-byte header / 26 bytes with the 16-byte AuthCode) '
+          'for every payload (Length byte exact below 256 bytes); RAKP Message 1 for every tag, session ID, random, role and user name of 0..16 bytes (17 and '
+          "more: the serialiser refuses). Each with 'serialising the decoded value again gives the same bytes'. Models are tied to the code by serialising "
+          'through gopacket.SerializeLayers for every payload length 0..200 (thorough 0..480; v1.5: 0..255 and beyond the byte wrap), all integrity '
+          "algorithms, every user-name length 0..20, and comparing the bytes and the re-decoded fields with the model's; the Go side also checks "
+          'decode(serialise) = value and re-serialise = same bytes directly.',
+ 'note': "trusted: Lean kernel; hand-written encode/decode models tied by byte-exact correspondence; HMAC/AES of Go's crypto library assumed lawful (decBlock "
+         "inverts encBlock); gopacket SerializeBuffer modelled as list concatenation. Values outside the wire format's range are excluded by the WF hypotheses "
+         '(message sequence < 64, LUN < 4; v2 payload type < 64; v1.5 AuthCode all zero when the authentication type is none - the field is absent from the '
+         'wire; RAKP 1 privilege level < 16)',
+ 'technique': 'Lean 4 proof (round-trip theorems by simp/omega/induction over abstract lawful crypto and an arbitrary integrity function) + byte-exact '
+              'differential correspondence of serialisers and decoders',
+ 'ref': '§5 C08',
+ 'proofs': ['Bmc.Proofs.C08'],
+ 'scenarios': ['rt', 'rt2'],
+ 'rule': 'rt: message: 7 NetFn classes x every payload length 0..200 (thorough 0..480); v2 wrapper: 4 integrity algorithms x authenticated/not x payload types '
+         'incl. OEM x every payload length; AES: every message length. rt2: v1.5 wrapper: authentication type none and 5 other types (16-byte AuthCode) x '
+         'every payload length 0..200 (thorough 0..255, 256, 257, 300, 511, 512); RAKP 1: user-name lengths 0..20 x lookup flag x all 16 privilege values. All '
+         'other field values random per op (32-bit fields incl. 0, 0xffffffff, single non-zero byte). Non-trivial = every op (each serialises, decodes, '
+         'compares and re-serialises); distinct = distinct op line.',
+ 'modelled': ['Message.encode/decode, V2Session.encode/decode, AESLayer.encode/decode, V1Session.encode/decode, RAKP1.encode / Setup.RAKP1.decode are hand '
+              "models; gopacket's SerializeBuffer and crypto/{hmac,aes,cipher} are modelled/assumed, not verified"],
+ 'assumptions': ['crypto/rand replaced by a fixed reader in the harness so that the IV is an input']},
     "C05": {
         "claim": "For each of the 31 decoding layers of pkg/ipmi and pkg/dcmi a Lean model mirrors DecodeFromBytes statement by statement over an explicit Go-slice semantics (indexing bounded by len, slicing by cap, panics and reads beyond len as outcomes) and a refinement / canonical-form theorem shows: for EVERY receiver state and EVERY slice (any length, any capacity, any bytes beyond its length) the result is a value or an error - never a panic or an over-read - and is a function of the visible bytes only. The AES layer is proved for every lawful block cipher and key, i.e. for every plaintext a key holder can craft. On top: the whole decoding chain of an in-session reply never crashes (decodeChain_total) and an in-session command returns for every reply script of every length (call_total). Models are tied to the code by running every decoder under recover() on exact-capacity slices and on windows into a poisoned buffer with two poisons.",
         "note": "trusted: Lean kernel; the hand-written decodeGo models (tied by correspondence: outcome incl. every exported field, panic, over-read); Go slice semantics as modelled in Basic/Go.lean; gopacket's LayersDecoder modelled from source; state left behind by a FAILED decode is not modelled; session-less and handshake call totality rest on the same per-layer theorems plus the correspondence runs of C10/C02 (no separate Lean theorem yet)",
